@@ -168,6 +168,10 @@ def real_function(key: str):
     obj = m
     for part in qn.split("."):
         obj = getattr(obj, part)
+    if isinstance(obj, property):                # a contract on a property (`mod:Class.prop`): the function under contract is its getter
+        obj = obj.fget
+    elif not callable(obj) and callable(getattr(obj, "func", None)):      # functools.cached_property / autoconf CachedProperty
+        obj = obj.func
     return obj
 
 
